@@ -85,6 +85,9 @@ def reused_adjacency_stream(ctx, n):
             arr = np.array(vals, dtype=float).reshape(shape)
             minv = float(rng.choice([0, 0, npix // 3]))
             history.append({'shape': shape, 'vals': vals, 'min_value': minv})
+            d1 = d2 = None                     # earlier dendrograms are gone (their addresses may be reused)
+            import gc
+            gc.collect()
             try:
                 d1 = Dendrogram.compute(arr, min_value=minv, neighbours=nb)
                 d2 = Dendrogram.compute(arr.copy(), min_value=minv, neighbours=periodic_neighbours(arg))
